@@ -494,9 +494,15 @@ pub fn random_program(rng: &mut Rng, inject: u8) -> Program {
                     3 => String::new(),
                     _ => format!(" -> {}", (*rng.pick(&prim))),
                 };
-                let opdoc = match rng.below(4) {
-                    0 => format!("    /// Does {i}.\n    /// @param p: the input\n"),
-                    1 => format!("    /// @param nope: no such parameter\n"),
+                // links inside every kind of tag: each link of a program is resolved on its own, wherever it stands
+                let target = if ents.is_empty() { None } else { let j = rng.usize_below(ents.len()); Some(format!("{}::{}", modules[ents[j].module], ents[j].name)) };
+                let single_return = !ret.is_empty() && !ret.starts_with(" -> (");
+                let opdoc = match (rng.below(6), &target) {
+                    (0, _) => format!("    /// Does {i}.\n    /// @param p: the input\n"),
+                    (1, _) => format!("    /// @param nope: no such parameter\n"),
+                    (2, Some(t)) if single_return => format!("    /// Does {i} with {{@link {t}}}.\n    /// @returns: something like {{@link {t}}}\n"),
+                    (3, Some(t)) => format!("    /// @param p: see {{@link {t}}}\n    /// @see {t}\n"),
+                    (4, Some(t)) if single_return => format!("    /// @returns: a {{@link {t}}} or {{@link {}::Nowhere{i}}}\n", modules[module]),
                     _ => String::new(),
                 };
                 let idem = if rng.chance(1, 3) { "idempotent " } else { "" };
